@@ -107,6 +107,20 @@ func h5lockEngine(args []string) error {
 	if err := (owio.H5RefFloat64{Filename: file2, Dataset: "/a"}).Write(root.(*adFloat64).a); err != nil {
 		return err
 	}
+	// a dataset nobody writes during the run: concurrent selective loads must each get exactly their own selection
+	const roR, roC = 4, 6
+	roInit := make([]int64, roR*roC)
+	for k := range roInit {
+		roInit[k] = int64(100*(k/roC) + k%roC)
+	}
+	_, roRoot := f64.New([]int{roR, roC}, roInit, nil)
+	for _, fn := range []string{file, file2} {
+		if err := (owio.H5RefFloat64{Filename: fn, Dataset: "/ro"}).Write(roRoot.(*adFloat64).a); err != nil {
+			return err
+		}
+	}
+	var loadFails []map[string]interface{}
+	var lfMu sync.Mutex
 	mu.Lock()
 	tracing = true
 	mu.Unlock()
@@ -134,7 +148,48 @@ func h5lockEngine(args []string) error {
 					ref.Load()
 				case 1:
 					name = "LoadSel"
-					owio.H5RefFloat64{Filename: file, Dataset: "/a", Slice: [][]int{{0, 2, 1}, nil}}.Load()
+					if r.Intn(3) == 0 {
+						owio.H5RefFloat64{Filename: file, Dataset: "/a", Slice: [][]int{{0, 2, 1}, nil}}.Load()
+						break
+					}
+					// a seeded selection of the read-only dataset, checked against its definition
+					sel := make([][]int, 2)
+					var idx [2][]int
+					for d, ext := range []int{roR, roC} {
+						if r.Intn(4) == 0 {
+							for k := 0; k < ext; k++ {
+								idx[d] = append(idx[d], k)
+							}
+							continue
+						}
+						a := r.Intn(ext)
+						b := a + 1 + r.Intn(ext-a+1)
+						st := 1 + r.Intn(3)
+						sel[d] = []int{a, b, st}
+						for k := a; k < b && k < ext; k += st {
+							idx[d] = append(idx[d], k)
+						}
+					}
+					got, err := owio.H5RefFloat64{Filename: fn, Dataset: "/ro", Slice: sel}.Load()
+					bad := ""
+					if err != nil {
+						bad = "error: " + err.Error()
+					} else if sh := got.Shape(); len(sh) != 2 || sh[0] != len(idx[0]) || sh[1] != len(idx[1]) {
+						bad = fmt.Sprintf("shape %v, the selection has %d x %d elements", sh, len(idx[0]), len(idx[1]))
+					} else {
+						for i, ri := range idx[0] {
+							for j, cj := range idx[1] {
+								if v := got.Get([]int{i, j}); v != float64(100*ri+cj) {
+									bad = fmt.Sprintf("element [%d,%d] = %v, the selection addresses dataset element [%d,%d] = %d", i, j, v, ri, cj, 100*ri+cj)
+								}
+							}
+						}
+					}
+					if bad != "" {
+						lfMu.Lock()
+						loadFails = append(loadFails, map[string]interface{}{"kind": "concurrent-load", "detail": fmt.Sprintf("Load(/ro, %v) while other goroutines call the package: %s", sel, bad)})
+						lfMu.Unlock()
+					}
 				case 2:
 					name = "Write"
 					_, a := f64.New([]int{3, 4}, init, nil)
@@ -175,6 +230,9 @@ func h5lockEngine(args []string) error {
 	hdf5.SetTracer(nil)
 	hdf5.SetDelay(0)
 	s := &summary{Engine: "h5lock", Evaluations: events, Distinct: ng * nops}
+	for _, lf := range loadFails {
+		s.mismatch(lf)
+	}
 	s.Extra = map[string]interface{}{"goroutines": ng, "ops": opCount, "events": events}
 	s.emit()
 	return nil
